@@ -33,7 +33,7 @@ def run(ctx):
     ]
     ctx.lean(props=["Props.C19"], drivers=["drv_c19"])
     ctx.harness("./cmd/c19")
-    ctx.diff(area="extract", driver="drv_c19", n={"quick": 10000, "thorough": 900000},
+    ctx.diff(area="extract", driver="drv_c19", n={"quick": 10000, "thorough": 150000},
              trivial=lambda l, o: " e:" not in l, tagger=_tag,
              theorem="C19.extract_contained / extract_wf / ensureNoSymlinks_spec / payload_error_propagates / "
                      "extract_reproduces are about the model; impl != model on this archive")
